@@ -563,11 +563,16 @@ fn connack_probes(case: &Case, trace: &Trace, view: &View, props: &[Prop], probe
         }
         1 => {
             let steps = &case.conns[0].steps;
-            if steps.len() == 2 {
-                let r0 = trace.ops.first().map(|o| o.res.clone());
-                let r1 = trace.ops.get(1).map(|o| o.res.clone());
-                if r0 != Some(OpRes::Ok) || r1 != Some(OpRes::Err(ErrKind::PacketTooLarge)) {
-                    bad(v, "C08/connack-maximum-packet-size-not-applied".into(), format!("CONNACK {}: publish of exactly the maximum returned {r0:?}, one byte more returned {r1:?}", hex(bytes)));
+            let m = props.iter().find_map(|p| if let Prop::MaximumPacketSize(m) = p { Some(*m as usize) } else { None });
+            if let (2, Some(m)) = (steps.len(), m) {
+                for (i, st) in steps.iter().enumerate() {
+                    // not every total length exists (varint boundary): judge by the real length
+                    let Some(len) = super::c14::request_len(st) else { continue };
+                    let got = trace.ops.get(i).map(|o| o.res.clone());
+                    let want = if len > m { OpRes::Err(ErrKind::PacketTooLarge) } else { OpRes::Ok };
+                    if got != Some(want.clone()) {
+                        bad(v, "C08/connack-maximum-packet-size-not-applied".into(), format!("CONNACK {}: Maximum Packet Size {m}: a QoS 0 publish of {len} bytes returned {got:?}, expected {want:?}", hex(bytes)));
+                    }
                 }
             }
         }
